@@ -141,7 +141,7 @@ contract(
     returns="Event",
     requires=["bucket in self.db", "mem_inv(self)", "allocated(event) and allocated(event.data)", "event.id is None",
               "all(self.db[bucket][j].id is not None and self.db[bucket][j].id >= 0 for j in range(len(self.db[bucket])))"],
-    ghost_vars={"E0": ("Event", "event")},
+    ghost_vars={"E0": ("Event", "event")}, ghost_returns={"E0": "Event"},
     ensures=[
         "self.db[bucket] is old(self.db[bucket]) and len(self.db[bucket]) == old(len(self.db[bucket])) + 1",
         "all(self.db[bucket][j] is old(self.db[bucket][j]) for j in range(old(len(self.db[bucket]))))",
@@ -149,7 +149,7 @@ contract(
         "fresh(self.db[bucket][len(self.db[bucket]) - 1]) and fresh(self.db[bucket][len(self.db[bucket]) - 1].data)",
         "self.db[bucket][len(self.db[bucket]) - 1].timestamp == E0.timestamp and self.db[bucket][len(self.db[bucket]) - 1].duration == E0.duration"
         " and self.db[bucket][len(self.db[bucket]) - 1].data == E0.data",
-        "self.db[bucket][len(self.db[bucket]) - 1].id is not None"
+        "self.db[bucket][len(self.db[bucket]) - 1].id is not None and self.db[bucket][len(self.db[bucket]) - 1].id >= 0"
         " and all(old(self.db[bucket][j].id) != self.db[bucket][len(self.db[bucket]) - 1].id for j in range(old(len(self.db[bucket]))))",
         # what is handed back is a third object: neither the caller's event nor the stored one, equal in value to the stored one
         "fresh(result) and fresh(result.data) and result is not self.db[bucket][len(self.db[bucket]) - 1]"
@@ -168,7 +168,7 @@ contract(
     params={"self": "MemoryStorage", "bucket": "str", "event": "Event"},
     returns="Event",
     requires=["bucket in self.db", "mem_inv(self)", "allocated(event) and allocated(event.data)", "event.id is not None"],
-    ghost_vars={"E0": ("Event", "event")},
+    ghost_vars={"E0": ("Event", "event")}, ghost_returns={"E0": "Event"},
     ensures=[
         "result is E0",
         "self.db[bucket] is old(self.db[bucket]) and len(self.db[bucket]) == old(len(self.db[bucket]))",
@@ -388,4 +388,47 @@ contract(
     ],
     exc_ensures={"ValueError": ["not old(bucket_id in self._metadata)"]},
     modifies=["self._metadata[bucket_id][]"], raises=["ValueError"],
+)
+
+
+# -- insert_many: the loop AbstractStorage.insert_many runs over insert_one (MemoryStorage inherits it), for events without ids ---------
+A_ = "aw_datastore.storages.abstract.AbstractStorage"
+IDS_OK = "all(self.db[bucket_id][j].id is not None and self.db[bucket_id][j].id >= 0 for j in range(len(self.db[bucket_id])))"
+# (indexed by the position j in the bucket's list, so that the quantifier has the clean trigger `self.db[bucket_id][j]`)
+APPENDED = ("all(fresh(self.db[bucket_id][j]) and fresh(self.db[bucket_id][j].data)"
+            "    and self.db[bucket_id][j].timestamp == events[j - old(len(self.db[bucket_id]))].timestamp"
+            "    and self.db[bucket_id][j].duration == events[j - old(len(self.db[bucket_id]))].duration"
+            "    and self.db[bucket_id][j].data == events[j - old(len(self.db[bucket_id]))].data"
+            "    and self.db[bucket_id][j] is not events[j - old(len(self.db[bucket_id]))]"
+            "    and self.db[bucket_id][j].data is not events[j - old(len(self.db[bucket_id]))].data"
+            "    for j in range(old(len(self.db[bucket_id])), old(len(self.db[bucket_id])) + {K}))")
+# (ids are never reused: every appended event's id differs from the id of every event stored before it, old or appended by this call)
+NEW_IDS = ("all(all(self.db[bucket_id][j2].id != self.db[bucket_id][j].id for j2 in range(j))"
+           "    for j in range(old(len(self.db[bucket_id])), len(self.db[bucket_id])))")
+CALLER_SAME = ("events is old(events) and len(events) == old(len(events))"
+               " and all(events[i] is old(events[i]) and events[i].id is None and events[i].timestamp == old(events[i].timestamp)"
+               "         and events[i].duration == old(events[i].duration) and events[i].data is old(events[i].data)"
+               "         and events[i].data == old(events[i].data) for i in range(len(events)))")
+EVENTS_OK = "all(allocated(events[i]) and allocated(events[i].data) and events[i].id is None for i in range(len(events)))"
+contract(
+    A_ + ".insert_many:memory",
+    params={"self": "MemoryStorage", "bucket_id": "str", "events": "List[Event]"},
+    # (len(...) >= 0 is a fact of the language the encoder does not supply for a list reached through a dict: stated, trivially true)
+    requires=["bucket_id in self.db", "mem_inv(self)", "allocated(events)", EVENTS_OK, IDS_OK, "len(self.db[bucket_id]) >= 0",
+              "all(events is not self.db[b] for b in self.db)"],
+    # (L0 names the bucket's list object: a loop-invariant reference, so that the loop's frame is "only L0's cells and fresh objects")
+    ghost_vars={"L0": ("List[Event]", "self.db[bucket_id]")},
+    ensures=[
+        "self.db[bucket_id] is old(self.db[bucket_id]) and len(self.db[bucket_id]) == old(len(self.db[bucket_id])) + len(events)",
+        "all(self.db[bucket_id][j] is old(self.db[bucket_id][j]) for j in range(old(len(self.db[bucket_id]))))",
+        APPENDED.format(K="len(events)"), IDS_OK, NEW_IDS, CALLER_SAME, "mem_inv(self)",
+    ],
+    modifies=["self.db[bucket_id][]", "alloc"], writes_fresh=["*"], raises=[],
+    loops={0: dict(index="k", invariant=[
+        "bucket_id in self.db and self.db[bucket_id] is old(self.db[bucket_id]) and L0 is self.db[bucket_id]"
+        " and len(self.db[bucket_id]) == old(len(self.db[bucket_id])) + k and old(len(self.db[bucket_id])) >= 0 and k >= 0",
+        "all(self.db[bucket_id][j] is old(self.db[bucket_id][j]) for j in range(old(len(self.db[bucket_id]))))",
+        "mem_inv(self)", "allocated(events)", EVENTS_OK, "all(events is not self.db[b] for b in self.db)",
+        IDS_OK, APPENDED.format(K="k"), NEW_IDS, CALLER_SAME,
+    ])},
 )
